@@ -274,6 +274,7 @@ impl Gen<'_> {
             6 => format!("and {d}, {a}, {b}"),
             7 => format!("or {d}, {a}, {b}"),
             8 => format!("xor {d}, {a}, {b}"),
+            9 if self.cfg.discipline > 0 && self.r.chance(1, 3) => format!("li {d}, {}", *self.r.pick(&["'a'", "'\\n'", "'\\u0041'", "'\\''", "'\\u00e9'"])),
             9 => format!("mul {d}, {a}, {b}"),
             10 => format!("neg {d}, {a}"),
             11 => format!("not {d}, {a}"),
@@ -473,6 +474,29 @@ impl Gen<'_> {
                     self.ret(ctx);
                     self.emit_label(&lc);
                 }
+                19 if !in_fn && self.cfg.code_after_exit && depth == 0 => {
+                    // an ecall reached by fall-through from an exit and by a jump that sets a7 elsewhere
+                    let lx = self.fresh("shx");
+                    let lp = self.fresh("shp");
+                    let ld = self.fresh("shd");
+                    let c = self.cond(ctx, &lp);
+                    self.emit(c);
+                    let n1 = *self.r.pick(&[93i64, 10, 1, 93]);
+                    if n1 != 10 {
+                        self.emit(format!("li {}, 0", self.reg("a0")));
+                    }
+                    self.emit(format!("li {}, {n1}", self.reg("a7")));
+                    self.emit("ecall".into());
+                    self.emit_label(&lx);
+                    self.emit("ecall".into());
+                    self.arith(ctx);
+                    self.emit(format!("j {ld}"));
+                    self.emit_label(&lp);
+                    let n2 = *self.r.pick(&[10i64, 93, 1, 5]);
+                    self.emit(format!("li {}, {n2}", self.reg("a7")));
+                    self.emit(format!("j {lx}"));
+                    self.emit_label(&ld);
+                }
                 18 if self.cfg.irreducible && depth < 2 => {
                     // two-entry loop: jump into the middle of a loop body
                     let la = self.fresh("irr");
@@ -501,7 +525,7 @@ impl Gen<'_> {
             let s = match self.r.below(6) {
                 0 => format!(".word {}", self.r.range(0, 1000)),
                 1 => format!(".word {}, {}, {}", self.r.range(0, 9), self.r.range(0, 9), self.r.range(-5, 5)),
-                2 => ".asciz \"hello world\"".to_string(),
+                2 => (*self.r.pick(&[".asciz \"hello world\"", ".asciz \"caf\\u00e9 \\u4e16\\u754c\"", ".ascii \"tab\\there \\\"q\\\" \\\\ \\0\"", ".asciz \"\\u0041\\u00df\""])).to_string(),
                 3 => format!(".space {}", 4 * self.r.range(1, 8)),
                 4 => format!(".byte {}", self.r.range(0, 255)),
                 _ => ".string \"a\\tb\\n\"".to_string(),
@@ -552,7 +576,9 @@ impl Gen<'_> {
                 }
             }
             self.fn_names.push(names);
-            self.tail_labels.push(None);
+            // decided up front so that an earlier function can jump forward into a later one's tail
+            let tail = if cfg.shared_tail && self.r.chance(1, 2) { Some(format!("tailf{k}")) } else { None };
+            self.tail_labels.push(tail);
         }
         let data_first = cfg.data && self.r.chance(1, 2);
         if data_first {
@@ -651,10 +677,8 @@ impl Gen<'_> {
             let items = 1 + self.r.usize(cfg.body_items.max(1));
             let half = items / 2;
             self.body(&mut ctx, half, 0);
-            if cfg.shared_tail && self.r.chance(1, 2) {
-                let t = self.fresh("tail");
+            if let Some(t) = self.tail_labels[k].clone() {
                 self.emit_label(&t);
-                self.tail_labels[k] = Some(t);
             }
             self.body(&mut ctx, items - half, 0);
             if cfg.parse_errors && self.r.chance(1, 3) {
@@ -672,6 +696,10 @@ impl Gen<'_> {
                 }
             } else if cfg.shared_tail && k > 0 && self.tail_labels[k - 1].is_some() && self.r.chance(1, 2) {
                 let t = self.tail_labels[k - 1].clone().unwrap_or_default();
+                self.emit(format!("j {t}"));
+            } else if cfg.shared_tail && !last && self.tail_labels[k + 1].is_some() && self.r.chance(1, 2) {
+                // forward: end in the tail of the function that follows
+                let t = self.tail_labels[k + 1].clone().unwrap_or_default();
                 self.emit(format!("j {t}"));
             } else if cfg.fallthrough && !last && self.r.chance(1, 2) {
                 // fall through into the next function
